@@ -16,8 +16,38 @@ pub fn main(args: &[String]) -> i32 {
             println!("lossless: {:?}", crate::props::c01::lossless(&text, &tree));
             0
         }
+        Some("flow") => {
+            // vcheck --tool flow <file.lua> [nostd]: inferred type at every __probe(id, x) + VM observations + diagnostics
+            let text = std::fs::read_to_string(&args[1]).expect("read");
+            let nostd = args.get(2).map(|s| s == "nostd").unwrap_or(false);
+            let mut ws = if nostd { emmylua_code_analysis::VirtualWorkspace::new() } else { emmylua_code_analysis::VirtualWorkspace::new_with_init_std_lib() };
+            let inf = crate::props::c15::infer_probes(&mut ws, &text).expect("analysis");
+            let mut ids: Vec<&u32> = inf.keys().collect();
+            ids.sort();
+            for id in ids {
+                match &inf[id] {
+                    crate::props::c15::Inferred::Type(t) => println!("probe {id}: inferred {}   [{:?}]", crate::props::c15::show_type(&ws, t), t),
+                    crate::props::c15::Inferred::Err(e) => println!("probe {id}: infer error {e}"),
+                }
+            }
+            let mut vm = crate::oracle::luaexec::Vm::new();
+            let used: Vec<u8> = (0..5u8).filter(|k| text.contains(&format!("__c{}", k + 1))).collect();
+            for env in 0u8..32 {
+                if (0..5u8).any(|k| env >> k & 1 == 1 && !used.contains(&k)) {
+                    continue;
+                }
+                let opaque: Vec<bool> = (0..5).map(|k| env >> k & 1 == 1).collect();
+                let (ev, end) = vm.run(&text, &opaque, 1_000_000);
+                println!("env {:05b}: {:?} {:?}", env, ev, end);
+            }
+            let fid = ws.def_file("flow_case.lua", &text);
+            for d in ws.analysis.diagnose_file(fid, tokio_util::sync::CancellationToken::new()).unwrap_or_default() {
+                println!("diag {:?} {}:{} {}", d.code, d.range.start.line, d.range.start.character, d.message);
+            }
+            0
+        }
         _ => {
-            eprintln!("tools: parse");
+            eprintln!("tools: parse | flow");
             2
         }
     }
